@@ -1695,6 +1695,35 @@ func (h *c02) eipClasses() {
 	h.aminoCollisions = "message types with identical GetSignBytes() (not amino-registered, same JSON): " + strings.Join(acoll, " ; ")
 	h.r.Extra["eip712_indistinguishable_message_types"] = ecoll
 	h.r.Extra["amino_indistinguishable_message_types"] = acoll
+	// the pairs of message types one signature cannot tell apart are the recorded findings C02/amino|eip712/
+	// message-type-confusion - as far as they are on the reviewed lists below. A pair that is NOT (two message types whose
+	// sign bytes coincide now and did not before) is a signature that authorises a transaction its signer never saw.
+	for _, chk := range []struct {
+		mode     string
+		got      []string
+		reviewed []string
+	}{{"amino", acoll, c02AminoReviewed}, {"eip712", ecoll, c02EipReviewed}} {
+		known := map[string]bool{}
+		for _, g := range chk.reviewed {
+			ts := strings.Split(g, " = ")
+			for i := range ts {
+				for j := range ts {
+					known[ts[i]+"|"+ts[j]] = true
+				}
+			}
+		}
+		for _, g := range chk.got {
+			ts := strings.Split(g, " = ")
+			for i := range ts {
+				for j := i + 1; j < len(ts); j++ {
+					h.r.Count("oracle:C02/" + chk.mode + "/indistinguishable-pairs")
+					if !known[ts[i]+"|"+ts[j]] {
+						h.r.Fail("C02/"+chk.mode+"/new-indistinguishable-message-types", fmt.Sprintf("%s sign bytes of %s and %s with the same field values are identical: a signature made for one authorises the other", chk.mode, ts[i], ts[j]), nil)
+					}
+				}
+			}
+		}
+	}
 	index := func(keys []string, k string, t int) int {
 		i := sort.SearchStrings(keys, k)
 		if i < len(keys) && keys[i] == k {
@@ -1714,4 +1743,27 @@ func (h *c02) eipClasses() {
 		h.r.Op(fmt.Sprintf("auth eipclass %d %d", t, h.eipClass[t]), "ok")
 		h.r.Op(fmt.Sprintf("auth aminoclass %d %d", t, h.aminoClass[t]), "ok")
 	}
+}
+
+// message types the sign bytes of the two JSON-based modes cannot tell apart on the reviewed tree (findings
+// C02/amino/message-type-confusion, C02/eip712/message-type-confusion)
+var c02AminoReviewed = []string{
+	"/kira.basket.MsgDisableBasketDeposits = /kira.basket.MsgDisableBasketSwaps = /kira.basket.MsgDisableBasketWithdraws",
+	"/kira.custody.MsgAddToCustodyCustodians = /kira.custody.MsgAddToCustodyWhiteList",
+	"/kira.custody.MsgApproveCustodyTransaction = /kira.custody.MsgDeclineCustodyTransaction",
+	"/kira.custody.MsgDisableCustodyRecord = /kira.custody.MsgDropCustodyCustodians = /kira.custody.MsgDropCustodyLimits = /kira.custody.MsgDropCustodyWhiteList",
+	"/kira.custody.MsgRemoveFromCustodyCustodians = /kira.custody.MsgRemoveFromCustodyWhiteList",
+	"/kira.gov.MsgCouncilorActivate = /kira.gov.MsgCouncilorPause = /kira.gov.MsgCouncilorUnpause = /kira.multistaking.MsgClaimMaturedUndelegations",
+	"/kira.gov.MsgRemoveBlacklistedPermissions = /kira.gov.MsgRemoveWhitelistedPermissions",
+	"/kira.layer2.MsgApproveDappTransitionTx = /kira.layer2.MsgRejectDappTransitionTx",
+	"/kira.layer2.MsgBondDappProposal = /kira.layer2.MsgReclaimDappBondProposal",
+	"/kira.layer2.MsgExitDapp = /kira.layer2.MsgPauseDappTx = /kira.layer2.MsgReactivateDappTx = /kira.layer2.MsgUnPauseDappTx",
+}
+
+var c02EipReviewed = []string{
+	"/kira.basket.MsgDisableBasketDeposits = /kira.basket.MsgDisableBasketWithdraws",
+	"/kira.custody.MsgApproveCustodyTransaction = /kira.custody.MsgDeclineCustodyTransaction",
+	"/kira.custody.MsgDropCustodyLimits = /kira.custody.MsgDropCustodyWhiteList",
+	"/kira.gov.MsgBlacklistPermissions = /kira.gov.MsgRemoveBlacklistedPermissions = /kira.gov.MsgRemoveWhitelistedPermissions",
+	"/kira.gov.MsgCouncilorActivate = /kira.gov.MsgCouncilorPause = /kira.gov.MsgCouncilorUnpause",
 }
